@@ -4,9 +4,11 @@
 //!                [--replay-dir DIR] [--evidence-part FILE] [--profile NAME] [--features NAME]
 //!   ixsim replay FILE
 //!   ixsim digest --prop MIX [--seed N] [--runs N] [--threads N] [--full]
+//!   ixsim abyss  --prop C05 --tier quick --profile dev ...   (engine `abyss`, see abyss.rs)
 //!
 //! exit codes: 0 held, 1 violation (prints `VIOLATION property=<id> replay=<path>`), 2 harness error
 
+mod abyss;
 mod bump;
 mod disk;
 mod gen;
@@ -125,6 +127,8 @@ fn dispatch(args: &[String]) -> i32 {
         Some("seqscan") => cmd_seqscan(&args[2..]),
         Some("batchreplay") => cmd_batchreplay(&args[2..]),
         Some("batchdigest") => cmd_batchdigest(&args[2..]),
+        Some("abyss") => abyss::cmd_batch(&args[2..]),
+        Some("abyss-one") => abyss::cmd_one(&args[2..]),
         _ => {
             eprintln!("usage: ixsim run|replay|digest ...");
             2
@@ -252,6 +256,9 @@ fn cmd_replay(args: &[String]) -> i32 {
     };
     if text.contains("\"histsim-batch\"") {
         return cmd_batchreplay(args);
+    }
+    if text.contains("\"engine\": \"abyss\"") {
+        return abyss::cmd_replay(path, &text);
     }
     let rp: Replay = match serde_json::from_str(&text) {
         Ok(r) => r,
